@@ -40,7 +40,9 @@ QUICK_FIXTURES = [
     ("layers/group.psd", "group"), ("clipping-mask3.psd", "group"),
     ("gradient-sizes.psd", "artboard"),
     ("clip-adjustment.psd", "type"),
-    ("layers-minimal/shape-layer.psd", "shape"),
+    ("layers-minimal/shape-layer.psd", "shape"),      # no pixel planes: box from the vector mask
+    ("masks/2.psd", "shape"),                        # no pixel planes: box from the origination data
+    ("layers/shape-layer.psd", "shape"),             # with pixel planes
     ("layers-minimal/smartobject-layer.psd", "smartobject"),
     ("layers-minimal/solid-color-fill.psd", "fill"), ("colormodes/4x4_8bit_lab.psd", "fill"),
     ("layers-minimal/pattern-fill.psd", "fill"), ("layers/pattern-fill.psb", "fill"),
@@ -229,6 +231,8 @@ def dump(layer, pix=None) -> str:
 
 
 def op_str(op) -> str:
+    if op[0] == "save":
+        return "save"
     k, v = op[0], op[1]
     if k == "name":
         return "name=" + cps(v)
@@ -414,8 +418,22 @@ def apply_op(layer, op, target):
         raise core.Infra("unknown op " + k)
 
 
+def pos_obs(layer) -> str:
+    """the position as the getters give it, for EVERY kind (the dump shows 'd' where the model has no value):
+    left, top, right, bottom, offset, size, bbox"""
+    def one(f):
+        v = _get(f)
+        return "!" + ecls(v) if isinstance(v, Exception) else repr(tuple(v) if isinstance(v, (tuple, list)) else v)
+    return ";".join(one(f) for f in (lambda: layer.left, lambda: layer.top, lambda: layer.right, lambda: layer.bottom,
+                                     lambda: layer.offset, lambda: layer.size, lambda: layer.bbox))
+
+
+POS_NAME = ["left", "top", "right", "bottom", "offset", "size", "bbox"]
+
+
 def run_real(case):
-    """Run one case on the real API. Returns a dict with the step dumps and raw exceptions."""
+    """Run one case on the real API. Returns a dict with the step dumps and raw exceptions.
+    An op ["save"] writes the document as it is at that point of the history (the bytes are dropped)."""
     source, ops = case["source"], [tuple(o) for o in case["ops"]]
     psd, layer, target = build(source)
     if layer is None:
@@ -425,6 +443,7 @@ def run_real(case):
     res["spec"], res["blocks"] = source_spec(source, layer, pix0)
     res["dump0"] = dump(layer, pix0)
     res["np"] = [np_digest(layer)]
+    res["pos"] = [pos_obs(layer)]
     res["has_lspf0"] = "6c737066" in res["dump0"].split("|")[F_BLOCKS]
     ops = list(ops)
     if source["t"] != "fix" and not any(o[0] == "attach" for o in ops):
@@ -434,9 +453,12 @@ def run_real(case):
         if op[0] == "attach":
             op = ("attach", (psd.width, psd.height))
         try:
-            with warnings.catch_warnings():
-                warnings.simplefilter("ignore")
-                apply_op(layer, op, target)
+            if op[0] == "save":
+                save_bytes(psd)
+            else:
+                with warnings.catch_warnings():
+                    warnings.simplefilter("ignore")
+                    apply_op(layer, op, target)
             st = "ok"
             if op[0] == "attach":
                 res["attached"] = True
@@ -445,6 +467,7 @@ def run_real(case):
             res.setdefault("exc", []).append(repr(e)[:200])
         res["steps"].append((st, dump(layer)))
         res["np"].append(np_digest(layer))
+        res["pos"].append(pos_obs(layer))
     res["final_ops"] = [list(o) for o in ops]
     # save + reopen
     try:
@@ -461,6 +484,7 @@ def run_real(case):
         res["reopened"] = dump(l2)
         res["kind2"] = model_kind(l2)
         res["np"].append(np_digest(l2))
+        res["pos_reopened"] = pos_obs(l2)
     except Exception as e:  # noqa
         res["save"] = "reopen-err:" + ecls(e)
         res["save_exc"] = repr(e)[:200]
@@ -657,10 +681,52 @@ def check_property(ctx, case, res, env, blends):
             ctx.fail(f"C16/{b}/{lab}/getter-ill-typed", f"{b} getter of a {lab} layer returns a value outside its type",
                      inp, prev[ATTR_FIELD.get(b, 0)], "a value of the attribute's type")
     nps = res["np"]
+    poss = res["pos"]
+    nsaves = sum(1 for o in ops if o[0] == "save")
     for i, (op, (st, d)) in enumerate(zip(ops, res["steps"])):
         cur = d.split("|")
         k = op[0]
         np_prev, np_cur = nps[i], nps[i + 1]
+        pos_prev, pos_cur = poss[i].split(";"), poss[i + 1].split(";")
+        if k == "save":
+            # writing the document is not an edit: every attribute, the record and the position stay as they are
+            ctx.hist("oracle_ops", f"save/{lab}/" + st)
+            if st != "ok":
+                r = prev[F_RECT].split(",")
+                if not all(I32MIN <= int(x) <= I32MAX for x in r) and st == "err:struct.error":
+                    prev = cur
+                    continue
+                ctx.fail(f"C16/save/{lab}/mid-history-{st[4:]}", "save in the middle of an edit history raises", inp, st, "saved")
+            for f in range(len(cur)):
+                if cur[f] != prev[f]:
+                    ctx.fail(f"C16/save/{lab}/changes-{FIELD_NAME[f]}", "save() changes an attribute of the layer in memory",
+                             inp, cur[f][:120], prev[f][:120])
+            if pos_cur != pos_prev:
+                ctx.fail(f"C16/save/{lab}/changes-position", "save() changes the position the getters report", inp,
+                         poss[i + 1], poss[i])
+            prev = cur
+            continue
+        # position, as the getters of THIS kind give it (the dump has it for the movable kinds only)
+        if k in ("left", "top", "offset") and in_domain(op, blends):
+            want = {0: op[1]} if k == "left" else {1: op[1]} if k == "top" else {0: op[1][0], 1: op[1][1], 4: tuple(op[1])}
+            if st == "ok":
+                ctx.hist("oracle_position", f"{k}/{lab}/accepted")
+                for j, w in want.items():
+                    if pos_cur[j] != repr(w):
+                        eff = "accepted-without-effect" if pos_cur[j] == pos_prev[j] else "get-after-set"
+                        ctx.fail(f"C16/{k}/{lab}/position-{eff}",
+                                 f"{k} = {op[1]} on a {lab} layer is accepted, but the {POS_NAME[j]} getter "
+                                 + ("still returns the old value" if eff.startswith("accepted") else "returns another value"),
+                                 inp, pos_cur[j], repr(w))
+            else:
+                ctx.hist("oracle_position", f"{k}/{lab}/refused")
+                if pos_cur != pos_prev:
+                    ctx.fail(f"C16/{k}/{lab}/position-refused-but-changed", f"a refused {k} edit changed the position getters",
+                             inp, poss[i + 1], poss[i])
+        elif k not in ("left", "top", "offset", "visible", "attach") and pos_cur != pos_prev:
+            # (the box of a group is derived from its VISIBLE children; attach gives fill/shape layers a canvas)
+            ctx.fail(f"C16/{k}/{lab}/frame-position", f"setting {k} changes the position the getters report", inp,
+                     poss[i + 1], poss[i])
         if k == "attach":
             # attaching is not an attribute edit, but it must not disturb the attributes either
             for f in list(range(F_NAME, F_LOCK + 1)) + [F_PIX]:
@@ -760,10 +826,22 @@ def check_property(ctx, case, res, env, blends):
                 sig = "C16/group-new/blend-mode-lost-on-save"
             elif f == F_BLEND and source.get("variant") == "short":
                 sig = "C16/blend_mode/group-short-divider/not-persisted"
+            elif nsaves:
+                sig = f"C16/{a}/{lab}/not-persisted-after-earlier-save"
             else:
                 sig = f"C16/{a}/{lab}/not-persisted"
-            ctx.fail(sig, f"{a} reads back differently after save and reopen" + ("" if f in edited else " (not edited)"),
+            ctx.fail(sig, f"{a} reads back differently after save and reopen" + ("" if f in edited else " (not edited)")
+                     + (f" (the document had been saved {nsaves}x earlier in the history)" if nsaves else ""),
                      inp, ro[f], last[f])
+    # the position as the getters of this kind report it (groups, artboards, shapes included)
+    pr = res.get("pos_reopened")
+    if pr is not None and pr != poss[-1]:
+        a, b = pr.split(";"), poss[-1].split(";")
+        j = next((j for j in range(len(a)) if a[j] != b[j]), 0)
+        fill_edge_zero = kind == "fill" and ("0" in last[F_RECT].split(",")[2:])
+        if not fill_edge_zero:
+            ctx.fail(f"C16/position/{lab}/not-persisted" + ("-after-earlier-save" if nsaves else ""),
+                     f"the {POS_NAME[j]} getter reads back differently after save and reopen", inp, a[j], b[j])
 
 
 def blocks_keys(fields):
@@ -1104,7 +1182,8 @@ def probe_env():
 
 
 def model_request(env, res):
-    ops = ";".join(op_str(o) for o in res["ops"]) or "_"
+    # the model's save is a pure function of the state: a mid-history ["save"] is no step of the model
+    ops = ";".join(op_str(o) for o in res["ops"] if o[0] != "save") or "_"
     return ("attr.run", env, res["spec"], res["blocks"], ops)
 
 
@@ -1113,11 +1192,12 @@ def compare(ctx, case, res, ans):
         ctx.disagree("model refused the request: " + "\t".join(ans)[:120], {"case": case})
         return
     fields = ans[1:]
-    n = len(res["ops"])
+    mops = [o for o in res["ops"] if o[0] != "save"]
+    n = len(mops)
     if len(fields) != n + 2:
         ctx.disagree("model answered %d fields for %d ops" % (len(fields), n), {"case": case})
         return
-    real = [res["dump0"]] + [st + "|" + d for st, d in res["steps"]]
+    real = [res["dump0"]] + [st + "|" + d for o, (st, d) in zip(res["ops"], res["steps"]) if o[0] != "save"]
     real.append(res["save"] + ("|" + res["reopened"] if res["save"] == "ok" else ""))
     for i, (a, b) in enumerate(zip(real, fields)):
         if a != b:
@@ -1130,7 +1210,7 @@ def compare(ctx, case, res, ans):
                 if x != y:
                     nm = "status" if (off and j == 0) else FIELD_NAME[j - off] if 0 <= j - off < len(FIELD_NAME) else str(j)
                     diffs.append({"field": nm, "impl": (x or "")[:120], "model": (y or "")[:120]})
-            where = "initial state" if i == 0 else "after save+reopen" if i == n + 1 else "after op %d (%s)" % (i, op_str(res["ops"][i - 1])[:40])
+            where = "initial state" if i == 0 else "after save+reopen" if i == n + 1 else "after op %d (%s)" % (i, op_str(mops[i - 1])[:40])
             ctx.disagree("model != implementation " + where, {"case": _short_case(case), "diffs": diffs[:4]})
             return
 
@@ -1163,6 +1243,7 @@ def api_sources(quick):
         {"t": "frompil", "name": "Layer", "w": 4, "h": 3, "top": 0, "left": 0, "doc": "new-empty", "psd_given": True},
         {"t": "frompil", "name": "L2", "w": 5, "h": 2, "top": -3, "left": 7, "doc": "new-with-layer", "psd_given": False},
         {"t": "frompil", "name": "日本", "w": 2, "h": 2, "mode": "RGBA", "doc": "new-with-layer", "psd_given": True},
+        {"t": "frompil", "name": "det", "w": 3, "h": 2, "top": 1, "left": 2, "doc": "new-empty", "psd_given": False},
     ]
     if not quick:
         out += [
@@ -1171,6 +1252,58 @@ def api_sources(quick):
             {"t": "frompil", "name": "gray", "w": 3, "h": 3, "mode": "L", "doc": "new-empty", "psd_given": True},
             {"t": "newgroup", "name": "日本", "open": True, "doc": "new-empty"},
         ]
+    return out
+
+
+def history_pairs(is_group):
+    """two values per attribute (both differ from what fixtures and constructors start with, and from each other)"""
+    pairs = [
+        [("name", "A"), ("name", "né 日")],
+        [("visible", False), ("visible", True)],
+        [("opacity", 77), ("opacity", 200)],
+        [("blend", "6d756c20", "member"), ("blend", "7363726e", "bytes")],
+        [("left", 3), ("left", -7)],
+        [("top", -2), ("top", 11)],
+        [("offset", (5, -6)), ("offset", (2, 9))],
+        [("clip", True), ("clip", False)],
+        [("lock", 5, None), ("lock", 0, "unlock")],
+        [("lock", COMPLETE, "default"), ("lock", 10, None)],
+    ]
+    if is_group:
+        pairs.append([("blend", "70617373", "str"), ("blend", "6c646467", "member")])
+    return pairs
+
+
+def history_cases(sources, quick):
+    """Histories with saves BETWEEN the edits, for every attribute on every source: what a writer keeps from an earlier
+    save (encoded bytes, memo attributes) must not survive a later edit. S = save, x / y = the two values:
+      S y S            save; edit; save; reopen                                   (2 saves)
+      x S y S          edit; save; edit again; save; reopen                       (2 saves)
+      S x S y S        save; edit; save; edit again; save; reopen                 (3 saves)
+    (the closing save + reopen is the one run_real always makes). API-created layers: attached first, and - every
+    attribute - edited while DETACHED (Group.new without parent, PixelLayer.frompil(im, None)), then attached and saved."""
+    out = []
+    S = ["save"]
+    for s in sources:
+        api = s["t"] != "fix"
+        is_group = s.get("kind") in ("group", "artboard") or s["t"] == "newgroup"
+        A = [["attach", [0, 0]]]
+        for pair in history_pairs(is_group):
+            for x, y in ((pair[0], pair[1]), (pair[1], pair[0])):
+                x, y = list(x), list(y)
+                first = x == list(pair[0])
+                if not api:
+                    out.append({"source": s, "ops": [S, y], "how": "history-2-saves"})
+                    out.append({"source": s, "ops": [x, S, y], "how": "history-2-saves"})
+                    if first or not quick:
+                        out.append({"source": s, "ops": [S, x, S, y], "how": "history-3-saves"})
+                else:
+                    out.append({"source": s, "ops": A + [S, y], "how": "history-2-saves"})
+                    out.append({"source": s, "ops": [x] + A + [S, y], "how": "history-detached-edit"})
+                    out.append({"source": s, "ops": [y] + A + [S], "how": "history-detached-edit"})
+                    if first or not quick:
+                        out.append({"source": s, "ops": A + [S, x, S, y], "how": "history-3-saves"})
+                        out.append({"source": s, "ops": [x, S] + A + [S, y], "how": "history-3-saves"})
     return out
 
 
@@ -1215,6 +1348,8 @@ def gen_cases(ctx, blends):
                 cases.append({"source": s, "ops": [list(o), ["attach", [0, 0]]], "how": "single-before-attach"})
                 if not quick or o[0] in ("clip", "blend", "lock", "left"):
                     cases.append({"source": s, "ops": [["attach", [0, 0]], list(o)], "how": "single-after-attach"})
+    # histories with 1-3 saves between the edits, every attribute, every source
+    cases += history_cases(sources, quick)
     # random sequences
     maxlen = 3 if quick else 6
     nseq = 40 if quick else 400
@@ -1224,6 +1359,8 @@ def gen_cases(ctx, blends):
             ops = [list(rand_op(rng, blends)) for _ in range(n)]
             if s["t"] != "fix":
                 ops.insert(rng.randrange(0, len(ops) + 1), ["attach", [0, 0]])
+            for _ in range(rng.choice([0, 0, 1, 2])):
+                ops.insert(rng.randrange(0, len(ops) + 1), ["save"])
             cases.append({"source": s, "ops": ops, "how": "sequence"})
     return cases
 
@@ -1231,12 +1368,17 @@ def gen_cases(ctx, blends):
 # ---- the check -------------------------------------------------------------------------------
 def run(ctx: core.Run):
     gen = ctx.regenerate(extract_c16.gen_attr)
+    gen_table = ctx.regenerate(extract_c16.gen_attr_table)
     ctx.prove(["PsdVerif.Props.C16"])
     ctx.trusted_base += [
         "Lean 4.33 kernel; axioms allowed: propext, Classical.choice, Quot.sound (audited per theorem)",
         "Model/Attr.lean is a hand transliteration of the accessors in api/layers.py, TaggedBlocks.get_data/set_data, "
         "SectionDividerSetting/ProtectedSetting/LayerFlags/LayerRecord field encodings; tied by this run's correspondence check",
         "harness/extract_c16.py: BlendMode table, tag keys, enum values and the MacRoman table regenerated from the live modules",
+        "harness/extract_c16.py part 2 (symbolic evaluator over the AST of api/*.py, classes enumerated by reflection, setters "
+        "resolved through the live MRO): Generated/AttrTable.lean says what each getter reads and each setter does; the machine "
+        "of Model/AttrTable.lean (values as naturals per location, opaque tests and non-argument values adversarial) is the "
+        "semantics the table theorems are about; what the evaluator does not understand is `.other`, which tableOk rejects",
         "the byte layout around the modelled fields (lengths, padding, channel data, other blocks) is not part of this model (C01/C03)",
         "Model/Attr.lean `Doc`: several layers whose LayerFlags objects are addressed (object identity); its hypothesis `Owned` "
         "(every record owns its elements) is tied to the source by the regenerated table of attrs defaults of psd/layer_and_mask.py "
@@ -1252,6 +1394,7 @@ def run(ctx: core.Run):
     env = probe_env()
     ctx.extra["env_probe"] = env
     ctx.extra["generated_constants"] = gen
+    ctx.extra["accessor_table"] = gen_table
 
     cases = gen_cases(ctx, blends)
     results = []
@@ -1333,6 +1476,17 @@ def run(ctx: core.Run):
         "other layer of both documents of a scene before/after each step, two probe layers constructed before/after the step "
         "(layers created later), and the same layers read back from the files save() writes before/after the step; a failing "
         "history is cut down to the failing step (+ the creations before it, + the same attribute set to another value first)",
+        "accessor table: 54 rows (11 attributes incl. lock/unlock and the two components of offset x 5 representative classes "
+        "for the 28 layer classes); table_get_set / table_frame / table_persists hold for any table passing tableOk, "
+        "current_tree_attr_table_ok by decide; the table says WHERE a value is written, not how it is converted or validated - "
+        "value domains, codecs and the byte form stay with Model/Attr.lean and the correspondence; the getter's fallback "
+        "locations (legacy name field, record blend mode of a group without divider block) are outside table_get_set (hypothesis: "
+        "the first location exists afterwards)",
+        "search histories: save; edit; save - edit; save; edit; save - save; edit; save; edit; save for every attribute on every "
+        "source, edits on DETACHED API-created layers (Group.new without parent, PixelLayer.frompil(im, None)) followed by attach + "
+        "saves, seeded sequences with saves sprinkled in; position getters (left, top, right, bottom, offset, size, bbox) observed "
+        "for EVERY kind: a position edit is refused or the getters show it (never accepted without effect), and they read back "
+        "the same after save + reopen",
         "stated in DESIGN, not proved: nothing; 'persists via C01 + C08' is replaced by a self-contained save/reopen of the "
         "record fields and the three attribute blocks (Stored), byte framing left to C01/C03",
     ]
@@ -1362,10 +1516,13 @@ def replay(ctx, data):
     res = run_real(case)
     print("kind:", res["kind"])
     print("initial:", res["dump0"])
-    for o, (st, d) in zip(res["ops"], res["steps"]):
+    print("   position (left;top;right;bottom;offset;size;bbox):", res["pos"][0])
+    for o, (st, d), ps in zip(res["ops"], res["steps"], res["pos"][1:]):
         print(op_str(o)[:80], "->", st, d)
+        print("   position:", ps)
     print("save:", res["save"], res.get("save_exc", ""))
     if "reopened" in res:
         print("reopened:", res["reopened"])
+        print("   position:", res.get("pos_reopened"))
     print("expected:", data.get("expected"))
     return 0
